@@ -488,6 +488,42 @@ def main():
             known_or_report(fid, f"`{sql}`: {o['err']}", {"sql": sql, "impl": o})         # rejected, nothing changed: the recorded finding
         elif o["err"] or o["t"] != want:
             report(f"unsupported:{fid}", f"`{sql}` is a form fakesnow does not support; it must be rejected or answered correctly, but it left {o['t']} ({o['err']}), expected {want}", {"sql": sql, "impl": o})
+    # string constants inside MERGE clauses (conditions, SET values, INSERT values) mean what they mean in any other statement:
+    # backslash escapes, quotes, and the same through bound parameters (oracle: the values as Python strings)
+    consts = [("C:\\temp", "X:\\tools", "tab\\there"), ("it's", 'say "hi"', "50% $x ; --"), ("a\\nb", "new\nline", "\\\\srv\\share")]
+    for variant in ("inline", "bound"):
+        for c_del, c_upd, c_ins in consts:
+            fs_s, c_s = fsutil.fresh()
+            cu = c_s.cursor()
+            cu.execute("create table mt (k int, note varchar)")
+            cu.execute("create table ms (k int, note varchar)")
+            cu.execute("insert into mt values (%s, %s), (%s, %s), (%s, %s)", (1, c_del, 2, "keep", 3, c_del))
+            cu.execute("insert into ms values (%s, %s), (%s, %s), (%s, %s)", (1, c_del, 2, "x", 4, "y"))
+            q = lambda x: "'" + x.replace("\\", "\\\\").replace("'", "''").replace("\n", "\\n") + "'"  # noqa: E731
+            tmpl = ("merge into mt using ms on mt.k = ms.k when matched and ms.note = {0} then delete when matched then update set note = {1} "
+                    "when not matched then insert (k, note) values (ms.k, {2})")
+            ck.cov["evaluations"] += 1
+            ck.count(f"string-constants:{variant}")
+            try:
+                if variant == "inline":
+                    sql = tmpl.format(q(c_del), q(c_upd), q(c_ins))
+                    st = cu.execute(sql).fetchall()
+                else:
+                    sql = tmpl.format("%s", "%s", "%s")
+                    st = cu.execute(sql, (c_del, c_upd, c_ins)).fetchall()
+                names = [d.name for d in cu.description] if False else list(cu._arrow_table.column_names)  # noqa: SLF001
+                got = sorted(c_s.cursor().execute("select k, note from mt").fetchall())
+                counts = dict(zip(names, map(int, st[0])))
+                err = None
+            except Exception as e:  # noqa: BLE001
+                got, counts, err = None, None, f"{type(e).__name__}: {str(e)[:120]}"
+            fs_s.duck_conn.close()
+            want = sorted([(2, c_upd), (3, c_del), (4, c_ins)])
+            want_counts = {"number of rows inserted": 1, "number of rows updated": 1, "number of rows deleted": 1}
+            if err or got != want or counts != want_counts:
+                report(f"strconst:{variant}", f"`{sql}`" + (f" with parameters {(c_del, c_upd, c_ins)!r}" if variant == "bound" else "") +
+                       f": target {got} counts {counts} ({err}); the constants denote {(c_del, c_upd, c_ins)!r}, so Snowflake's MERGE leaves {want} with {want_counts}",
+                       {"sql": sql, "parameters": [c_del, c_upd, c_ins] if variant == "bound" else None, "target_after": got, "counts": counts, "expected": want})
     # the same with equally named columns in target and source and a SET expression that reads the target column
     from fakesnow.instance import FakeSnow
 
